@@ -1,43 +1,103 @@
 package main
 
-// Extension points of the fsm scenario generator for per-property files:
-//   registerStep(prefix, f)  - scripted step names "prefix" or "prefix:arg" usable in directed scenarios
-//   registerFocus(id, f)     - bias of the random scenarios when psh fsm is run with -focus id
-// (the two call sites in fsm_gen.go are the only edits to shared files)
+// Extension points of the fsm scenario driver, so that per-property files can add
+// step names, plan overrides, crash points and record filters without editing the
+// shared driver.  All registries are filled at init time; per-scenario state lives
+// in maps keyed by *Scen (scenarios run in parallel).
 
-import "strings"
+import (
+	"os"
+	"strings"
+	"sync"
+)
 
-type extStep func(sc *Scen, arg string)
+// ---- step names ----
+// A handler gets the full step name; it returns true when it handled the name.
+type extStepHandler func(sc *Scen, name string) bool
 
-var extSteps = map[string]extStep{}
+var extStepHandlers []extStepHandler
 
-func registerStep(prefix string, f extStep) { extSteps[prefix] = f }
+func registerStepHandler(h extStepHandler) { extStepHandlers = append(extStepHandlers, h) }
 
-func runExtStep(sc *Scen, n string) bool {
-	name, arg := n, ""
-	if i := strings.Index(n, ":"); i >= 0 {
-		name, arg = n[:i], n[i+1:]
-	}
-	if f, ok := extSteps[name]; ok {
-		f(sc, arg)
-		return true
+func extStep(sc *Scen, n string) bool {
+	for _, h := range extStepHandlers {
+		if h(sc, n) {
+			return true
+		}
 	}
 	return false
 }
 
-// ext steps whose name starts with "pre_" or "start_" / "request_" may run before the swap exists
-func extStepRunsFresh(n string) bool {
-	return strings.HasPrefix(n, "pre_") || strings.HasPrefix(n, "start_") || strings.HasPrefix(n, "request_")
+// ---- per-scenario extension state ----
+type extState struct {
+	plan      *Plan // answers plan for the NEXT step only
+	crashAt   int   // >0: the next step dies when its crashAt-th effect is about to happen
+	randCrash bool  // random crash injection enabled for this scenario
+	stash     []interface{}
 }
 
-type focusFn func(sc *Scen, idx int)
+var (
+	extMu     sync.Mutex
+	extStates = map[*Scen]*extState{}
+)
 
-var focusFns = map[string]focusFn{}
-
-func registerFocus(id string, f focusFn) { focusFns[id] = f }
-
-func applyFocus(sc *Scen, focus string, idx int) {
-	if f, ok := focusFns[focus]; ok {
-		f(sc, idx)
+func ext(sc *Scen) *extState {
+	extMu.Lock()
+	defer extMu.Unlock()
+	s, ok := extStates[sc]
+	if !ok {
+		s = &extState{}
+		extStates[sc] = s
 	}
+	return s
+}
+
+func extPlan(sc *Scen) (Plan, bool) {
+	s := ext(sc)
+	if s.plan == nil {
+		return Plan{}, false
+	}
+	p := *s.plan
+	s.plan = nil
+	return p, true
+}
+
+// ---- hooks around one step ----
+type extBeginHook func(sc *Scen, sp *stepSpec)
+type extRecordHook func(sc *Scen, rec *stepRecord, panicked bool) bool
+
+var (
+	extBeginHooks  []extBeginHook
+	extRecordHooks []extRecordHook
+)
+
+func registerBeginHook(h extBeginHook)   { extBeginHooks = append(extBeginHooks, h) }
+func registerRecordHook(h extRecordHook) { extRecordHooks = append(extRecordHooks, h) }
+
+func extBeginStep(sc *Scen, sp *stepSpec) {
+	for _, h := range extBeginHooks {
+		h(sc, sp)
+	}
+}
+
+func extRecord(sc *Scen, rec *stepRecord, panicked bool) bool {
+	for _, h := range extRecordHooks {
+		if h(sc, rec, panicked) {
+			return true
+		}
+	}
+	return false
+}
+
+// focusIs reports whether this process was started with "-focus <id>" (available at init time).
+func focusIs(id string) bool {
+	for i, a := range os.Args {
+		if (a == "-focus" || a == "--focus") && i+1 < len(os.Args) && os.Args[i+1] == id {
+			return true
+		}
+		if strings.HasPrefix(a, "-focus=") && strings.TrimPrefix(a, "-focus=") == id {
+			return true
+		}
+	}
+	return false
 }
